@@ -33,10 +33,21 @@ the forbidden requests is sent WITHOUT the gate, truly concurrently with the own
 response oracle applies.  Permitted pairs are positive controls (probes only; a refused permitted request is not a
 C14 violation).
 
-Sensitivity (mutations tried in a scratch worktree of the repository, all caught): see the coordinator report of the
-round that added this file; briefly -- `_user_can_access` without the membership join condition; create_update /
-commit without `batches.user = %s`; `authenticated_developers_or_auth_only` accepting everybody; gear.auth not
-rejecting inactive users.
+Finding on the unchanged tree (kept, not silenced): `_create_batch_update` answers a request whose token matches an
+existing update of the batch BEFORE it checks `batches.user`, so POST .../updates/create by a non-owner member who
+presents the owner's token gets 200 + the update's ids (nothing changes).  A member can read that token: GET
+.../batches/{id} shows the batch token, which create / create-fast also use as the token of update 1.  Signature
+C14/member_allowed/owner_write/replayed_update_token; switch the variant off with params {'token_replay': False}.
+
+Sensitivity (each tried alone in a scratch worktree of the repository with HAIL_REPO_ROOT, `./vcheck C14 quick`; all
+caught): m1 `_user_can_access` without the membership condition -> <role>_allowed/{batch_read,batch_cancel,
+batch_delete,ui_*} for non_member / developer / auth_service; m2 `_create_batch_update` without `batches.user = %s`
+-> <role>_allowed/owner_write and <role>_refused_but_state_changed/owner_write (update-fast answers 404 after
+inserting the update); m3 `authenticated_developers_or_auth_only` accepting everybody -> {member,non_member,owner}_
+allowed/bp_admin; m4 gear.auth not rejecting state == 'inactive' -> inactive_allowed/*; m5 the admin decorator running
+the handler and refusing afterwards -> *_refused_but_state_changed/bp_admin; m6 UI add-user route with
+authenticated_users_only -> *_allowed/ui_bp_admin; m7 commit_update without `batches.user = %s` ->
+*_allowed/owner_write.
 """
 import asyncio
 import hashlib
@@ -295,7 +306,7 @@ def run(ctx):
             t0 = loop.time()
             if st['fs_inflight'] and not w.net.inflight:
                 ctx.probe('orphan_blob_write_drained')
-            while w.net.inflight or st['fs_inflight']:
+            while w.net.inflight or st['fs_inflight'] or st['conc']:
                 if loop.time() - t0 > limit:
                     return False
                 await asyncio.sleep(1 / 64)
@@ -494,8 +505,8 @@ def run(ctx):
                 brow = batch_row(bid) if bid is not None else None
                 if token_replay and brow is not None and ident.kind == 'member' and \
                         is_member(ident.username, brow['billing_project']) and s.draw(4) == 3:
-                    r = w.sql('SELECT token FROM batch_updates WHERE batch_id = %s ORDER BY update_id DESC LIMIT 1', (bid,))
-                    if r:
+                    r = w.sql('SELECT token FROM batches WHERE id = %s', (bid,))  # what GET .../batches/{id} shows
+                    if r and r[0]['token']:
                         tok = r[0]['token']
                         tag = 'replayed_update_token'
                 upd = {'n_jobs': 1, 'n_job_groups': 0, 'token': tok}
